@@ -1092,7 +1092,7 @@ impl<'a, 'b, W: Write> Serializer for &'a mut YamlSerializer<'b, W> {
                         // A block scalar carries its text verbatim: control characters (CR is
                         // a line break for the parser, NUL ends its input) need the escapes
                         // of a double-quoted scalar.
-                        if !v.chars().any(|c| c.is_control() && c != '\n' && c != '\t') {
+                        if block_scalar_can_carry(v) {
                             self.pending_str_style = Some(StrStyle::Literal);
                             self.pending_str_from_auto = true;
                         }
@@ -1412,8 +1412,9 @@ impl<'a, 'b, W: Write> Serializer for &'a mut YamlSerializer<'b, W> {
                 let mut cap = StrCapture::default();
                 value.serialize(&mut cap)?;
                 let s = cap.finish()?;
-                // Block scalars cannot be written inside a flow collection: quote there.
-                if self.in_flow == 0 {
+                // Block scalars cannot be written inside a flow collection, and they carry their
+                // text verbatim: quote there, and quote text with control characters.
+                if self.in_flow == 0 && block_scalar_can_carry(&s) {
                     self.pending_str_style = Some(StrStyle::Literal);
                 }
                 return self.serialize_str(&s);
@@ -1423,7 +1424,10 @@ impl<'a, 'b, W: Write> Serializer for &'a mut YamlSerializer<'b, W> {
                 value.serialize(&mut cap)?;
                 let s = cap.finish()?;
                 let is_multiline = s.contains('\n');
-                if (!is_multiline && s.len() < self.min_fold_chars) || self.in_flow > 0 {
+                if (!is_multiline && s.len() < self.min_fold_chars)
+                    || self.in_flow > 0
+                    || !block_scalar_can_carry(&s)
+                {
                     return self.serialize_str(&s);
                 }
                 self.pending_str_style = Some(StrStyle::Folded);
@@ -3114,6 +3118,13 @@ impl StrCapture {
 // ------------------------------------------------------------
 // Key scalar helper
 // ------------------------------------------------------------
+
+/// Whether `s` can be the body of a block scalar, which is written verbatim: a carriage return
+/// is a line break for the parser, NUL ends its input and the other control characters have no
+/// escape there.
+fn block_scalar_can_carry(s: &str) -> bool {
+    !s.chars().any(|c| c.is_control() && c != '\n' && c != '\t')
+}
 
 /// YAML limits an implicit mapping key (`key: value` on one line) to 1024 characters.
 const MAX_IMPLICIT_KEY_CHARS: usize = 1024;
